@@ -693,3 +693,11 @@ package uhppote
 //@     invariant stored: forall k int :: 0 <= k && k <= rangeindex ==> has(uhppote.devices, devices[k].DeviceID)
 //@     invariant own:    forall k int :: 0 <= k && k < len(devices) && has(uhppote.devices, devices[k].DeviceID) ==> !sameblock(uhppote.devices[devices[k].DeviceID].Doors, devices[k].Doors)
 //@     decreases len(devices) - rangeindex
+
+// the list handed out is a map of its own: changing it does not change the client's configuration
+//@ func (*uhppote).DeviceList
+//@   params u
+//@   returns res
+//@   ensures own: res != nil && fresh(res)
+//@   loop 1
+//@     invariant own: list != nil && fresh(list)
